@@ -139,6 +139,14 @@ static std::string dump_topology(hwloc_topology_t t, unsigned what = DUMP_ALL) {
 }
 
 // first differing line of two dumps ("" if equal)
+// the same dump without what depends on the assignment of objects to levels (depths, logical indexes, Group depth attribute, level table):
+// hwloc edits the level arrays in place when it merges levels, so two topologies with the same tree can be levelled differently
+#include <regex>
+static std::string strip_levels(const std::string &d) {
+  static const std::regex r1("\\nlevel [0-9]+ type=[^\\n]*"), r2(" L[0-9]+ os="), r3(" depth=-?[0-9]+"), r4("group\\(depth=[0-9]+,"), r5("(^|\\n)depth=[0-9]+ allowed"), r6("#L[0-9]+");
+  std::string x = std::regex_replace(d, r1, ""); x = std::regex_replace(x, r2, " os="); x = std::regex_replace(x, r3, ""); x = std::regex_replace(x, r4, "group("); x = std::regex_replace(x, r5, "$1allowed"); x = std::regex_replace(x, r6, "#");
+  return x;
+}
 static std::string first_diff(const std::string &a, const std::string &b) {
   if (a == b) return "";
   std::istringstream ia(a), ib(b); std::string la, lb; int n = 0;
